@@ -190,16 +190,28 @@ def fallback_rule(T, crate, prop="C10"):
             continue
         w = tables.wildcard_summary(t)
         b = t.body
+        if t.form == "closure":
+            # the key match lives in a closure returning Result<bool>: unknown key => Ok(false); parse() must skip on
+            # everything but Ok(true) and must not error
+            cf = tables.closure_fallback(t)
+            wild_ok = (not w["reaches_join"]) and (not w["err_exit"])
+            ok = cf is not None and wild_ok and cf["no_error_exit"] and cf["skip_on_every_non_true_path"] and cf["success_path_does_not_skip"]
+            r.inst(table="Serde<%s>" % x, form="closure", unknown_key_returns_not_true=wild_ok, parse_outcomes=(cf or {}).get("outcomes_at_join(ok_true,skipped)"),
+                   no_error_exit=(cf or {}).get("no_error_exit"), ok=ok)
+            if not ok:
+                r.fail(prop, "unknown-serde-key-not-inert Serde<%s>" % x,
+                       "an unknown or unparseable #[serde(..)] key is not reliably skipped: %s" % cf, t.parent.file(), t.parent.line())
+            continue
         skips = {blk for blk in w["region"] if b.term(blk)["k"] == "call" and fn_matches(b.term(blk), r"attr::skip_until_next_comma$")}
         all_skip = b.all_paths_pass(t.wild, skips, [t.join])
         ok = w["reaches_join"] and not w["err_exit"] and not w["returns_before_join"] and bool(skips) and all_skip
-        r.inst(table="Serde<%s>" % x, rejoins_loop=w["reaches_join"], can_error=w["err_exit"] or w["returns_before_join"], skips_on_every_path=all_skip, ok=ok)
+        r.inst(table="Serde<%s>" % x, form="direct", rejoins_loop=w["reaches_join"], can_error=w["err_exit"] or w["returns_before_join"], skips_on_every_path=all_skip, ok=ok)
         if not ok:
             r.fail(prop, "unknown-serde-key-not-inert Serde<%s>" % x,
                    "an unknown #[serde(..)] key can %s" % ("produce an error" if (w["err_exit"] or w["returns_before_join"]) else "fall through without skipping its value"),
                    b.file(), b.line())
     for name, t in sorted(T.items()):
-        b = t.body
+        b = t.parent or t.body
         ok = False
         for blk, term in b.calls():
             if fn_matches(term, r"ParseBuffer::<'_>::call::<proc_macro2::Ident>$") and not b.is_cleanup(blk):
@@ -261,8 +273,12 @@ def value_forms(T, syn, prop="C10"):
                 continue
             have = arm_forms(arms[k])
             missing = sorted(set(forms) - have)
-            r.inst(position=x, key=k, serde_accepts=forms, arm_accepts=sorted(have), missing=missing)
-            if missing and drops:
+            recovered = False
+            if t.form == "closure":
+                cf = tables.closure_fallback(t)
+                recovered = bool(cf and cf["no_error_exit"] and cf["skip_on_every_non_true_path"])
+            r.inst(position=x, key=k, serde_accepts=forms, arm_accepts=sorted(have), missing=missing, failure_recovered_per_key=recovered)
+            if missing and drops and not recovered:
                 for m in missing:
                     r.fail(prop, "serde-value-failure-drops-list Serde<%s>.%s(%s)" % (x, k, m),
                            "#[serde(%s ..)] in the `%s` form is valid serde but fails to parse here, and the failure discards every other key of the same #[serde(..)] list" % (k, m),
@@ -272,50 +288,71 @@ def value_forms(T, syn, prop="C10"):
 
 
 def skip_cursor_rule(crate, prop="C10"):
-    r = Result("C10.R8", "skip_until_next_comma tests for ',' the very token it advances past (the token compared and the cursor advance come from the same token_tree() call), so a bare unknown flag cannot swallow the key that follows it")
-    clos = [b for b in crate.bodies if b.path.startswith("attr::skip_until_next_comma::{closure")]
-    if not clos:
+    r = Result("C10.R8", "every token-skipping loop of the attribute parser (bodies that walk a syn Cursor with token_tree()) tests for ',' the very token it advances past, and tests it *before* advancing: the token compared and the cursor advance come from the same token_tree() call, and the advance is dominated by the inspection of that token. Otherwise a bare unknown flag swallows the following key, or the separator itself is consumed")
+    bodies = [b for b in crate.bodies if any(fn_matches(t, r"buffer::Cursor::<'_>::token_tree$") for _, t in b.calls())]
+    if not any(b.path.startswith("attr::skip_until_next_comma") for b in bodies):
         r.fail(prop, "anchor-missing skip_until_next_comma closure", "closure not found")
-        return r
-    b = clos[0]
-    tt_calls = {blk: t for blk, t in b.calls() if fn_matches(t, r"buffer::Cursor::<'_>::token_tree$") and not b.is_cleanup(blk)}
-    # loop-carried cursor locals: base local of a token_tree argument that is assigned more than once
-    adv, tested = set(), set()
-    for blk, t in tt_calls.items():
-        a = op_local(t["args"][0])
-        base = a
-        ds = M.def_sites(b, a)
-        if len(ds) == 1 and ds[0][1] != "term" and ds[0][2]["rv"]["k"] == "use":
-            pl = M.op_place(ds[0][2]["rv"]["op"])
-            if pl and not pl["p"]:
-                base = pl["l"]
-        defs = M.def_sites(b, base)
-        if len(defs) < 2:
-            continue
-        for db, i, d in defs:
-            if i == "term":
+    for b in bodies:
+        name = re.sub(r"::\{closure#\d+\}", "", b.path)
+        tt_calls = {blk: t for blk, t in b.calls() if fn_matches(t, r"buffer::Cursor::<'_>::token_tree$") and not b.is_cleanup(blk)}
+        adv, tested = {}, set()
+        for blk, t in tt_calls.items():
+            a = op_local(t["args"][0])
+            base = a
+            ds = M.def_sites(b, a)
+            if len(ds) == 1 and ds[0][1] != "term" and ds[0][2]["rv"]["k"] == "use":
+                pl = M.op_place(ds[0][2]["rv"]["op"])
+                if pl and not pl["p"]:
+                    base = pl["l"]
+            defs = M.def_sites(b, base)
+            if len(defs) < 2:
                 continue
-            srcs = [o for o in origins(b, None, identity=[]) ] if False else None
-            rv = d["rv"]
-            if rv["k"] == "use":
-                pl = M.op_place(rv["op"])
-                if pl is not None:
-                    for o in origins(b, pl["l"], identity=[]):
+            for db, i, d in defs:
+                if i == "term":
+                    continue
+                rv = d["rv"]
+                if rv["k"] == "use":
+                    pl = M.op_place(rv["op"])
+                    if pl is not None:
+                        for o in origins(b, pl["l"], identity=[]):
+                            if o["kind"] == "call" and o["block"] in tt_calls:
+                                adv.setdefault(o["block"], set()).add(db)
+        # blocks that inspect the token (discriminant of the TokenTree payload or as_char on its Punct)
+        inspect = {}
+        for blk in range(b.n):
+            for st in b.stmts(blk):
+                if st["k"] != "assign" or st["rv"]["k"] != "discr":
+                    continue
+                pj = st["rv"]["pl"]["p"]
+                lty = b.local_ty(st["rv"]["pl"]["l"])
+                is_token = (any(p.startswith(".Some::0") for p in pj) and any(p == ".0" for p in pj)) or \
+                    ("TokenTree" in lty and "Option" not in lty and "(" not in lty)
+                if is_token:
+                    for o in origins(b, st["rv"]["pl"]["l"], identity=[]):
                         if o["kind"] == "call" and o["block"] in tt_calls:
-                            adv.add(o["block"])
-    for blk, t in b.calls():
-        if fn_matches(t, r"proc_macro2::Punct::as_char$") and not b.is_cleanup(blk):
-            for o in origins(b, op_local(t["args"][0]), identity=[]):
-                if o["kind"] == "call" and o["block"] in tt_calls:
-                    tested.add(o["block"])
-    lines = {blk: tt_calls[blk]["span"]["line"] for blk in tt_calls}
-    r.inst(fn=b.path, token_tree_calls=len(tt_calls), advancing=sorted(lines[x] for x in adv), tested=sorted(lines[x] for x in tested))
-    if not adv or not tested:
-        r.fail(prop, "unrecognised-idiom skip_until_next_comma", "could not identify the cursor advance / the comma test", b.file(), b.line())
-    for x in sorted(adv - tested):
-        r.fail(prop, "skip-untested-token attr::skip_until_next_comma",
-               "the cursor advances past the token obtained at line %d, but the ',' test looks at a different token (a lookahead): a comma directly after an unknown bare key is skipped and the following key is swallowed" % lines[x],
-               b.file(), lines[x])
+                            inspect.setdefault(o["block"], set()).add(blk)
+        for blk, t in b.calls():
+            if fn_matches(t, r"proc_macro2::Punct::as_char$") and not b.is_cleanup(blk):
+                for o in origins(b, op_local(t["args"][0]), identity=[]):
+                    if o["kind"] == "call" and o["block"] in tt_calls:
+                        tested.add(o["block"])
+        lines = {blk: tt_calls[blk]["span"]["line"] for blk in tt_calls}
+        r.inst(fn=name, token_tree_calls=len(tt_calls), advancing=sorted(lines[x] for x in adv), tested=sorted(lines[x] for x in tested))
+        if not adv or not tested:
+            r.fail(prop, "unrecognised-idiom %s" % name, "could not identify the cursor advance / the comma test", b.file(), b.line())
+        for x in sorted(set(adv) - tested):
+            r.fail(prop, "skip-untested-token %s" % name,
+                   "the cursor advances past the token obtained at line %d, but the ',' test looks at a different token (a lookahead): a comma directly after an unknown bare key is skipped and the following key is swallowed" % lines[x],
+                   b.file(), lines[x])
+        for x in sorted(set(adv) & tested):
+            ins = inspect.get(x, set())
+            for ab in adv[x]:
+                ok = any(b.dominates(i, ab) for i in ins)
+                r.inst(fn=name, advance_block=ab, dominated_by_inspection_of_same_token=ok)
+                if not ok:
+                    r.fail(prop, "skip-advances-before-test %s" % name,
+                           "the cursor is advanced past the token from line %d before that token is compared with ',': the separator itself is consumed and the caller's `,` parse fails, dropping the whole attribute list" % lines[x],
+                           b.file(), lines[x])
     r.floor = 1
     return r
 
